@@ -60,6 +60,8 @@ def check(run, project):
     f8(run, project)
     from .shared import unbound_locals
     unbound_locals(run, project, "F10", (HEX, SWTPM, PCAP, AUTO), what="the front-end fails instead of decoding the carried bytes")
+    from .shared import undefined_names
+    undefined_names(run, project, "F10", (HEX, SWTPM, PCAP, AUTO), what="the front-end fails instead of decoding the carried bytes")
     run.floor("F1", 20)
     run.floor("F2", 6)
 
